@@ -1,4 +1,18 @@
-GUARDS = []
+# (coq name, file, function, ('if'|'while'|'for2', n), parameters, fallback term)
+# The float conditions of cc_pqueue_new_conf (exp_factor <= 1, ex >= CC_MAX_ELEMENTS / capacity) and the
+# conditions that call the comparator are transcribed by hand in PQueueModel.v (rationals / Section variable).
+_F = "src/cc_pqueue.c"
+GUARDS = [
+  ("g_pq_expand_max", _F, "expand_capacity", ("if", 0), ["capacity"], "(capacity =? CC_MAX_ELEMENTS)"),
+  ("g_pq_expand_overflow", _F, "expand_capacity", ("if", 1), ["new_capacity", "capacity"], "(new_capacity <=? capacity)"),
+  ("g_pq_push_full", _F, "cc_pqueue_push", ("if", 0), ["i", "capacity"], "(capacity <=? i)"),
+  ("g_pq_push_first", _F, "cc_pqueue_push", ("if", 2), ["i"], "(i =? 0)"),
+  ("g_pq_top_empty", _F, "cc_pqueue_top", ("if", 0), ["size"], "(size =? 0)"),
+  ("g_pq_pop_empty", _F, "cc_pqueue_pop", ("if", 0), ["size"], "(size =? 0)"),
+  ("g_pq_heapify_small", _F, "cc_pqueue_heapify", ("if", 0), ["size"], "(size <=? 1)"),
+  ("g_pq_heapify_moved", _F, "cc_pqueue_heapify", ("if", 3), ["index", "tmp"], "(negb (index =? tmp))"),
+  ("g_pq_destroy_cb_more", _F, "cc_pqueue_destroy_cb", ("for2", 0), ["i", "size"], "(i <? size)"),
+]
 # (coq name, file, macro name, params)
 MACROS = [
   ("m_CC_PARENT", "src/cc_pqueue.c", "CC_PARENT", ["x"]),
